@@ -14,11 +14,11 @@ pub struct FaultPlan {
     pub armed: bool,
     pub counter: usize,
     pub fail_at: Option<usize>,
-    pub log: Vec<String>,
+    pub log: Vec<serde_json::Value>,
 }
 pub type Plan = Rc<RefCell<FaultPlan>>;
 
-fn tick(plan: &Plan, what: String) -> AnyResult<()> {
+fn tick(plan: &Plan, what: serde_json::Value) -> AnyResult<()> {
     let mut p = plan.borrow_mut();
     if !p.armed {
         return Ok(());
@@ -29,6 +29,15 @@ fn tick(plan: &Plan, what: String) -> AnyResult<()> {
         bail!("injected fault at call {}: {}", p.counter, what);
     }
     Ok(())
+}
+fn bank_json(sender: &Addr, msg: &BankMsg) -> serde_json::Value {
+    match msg {
+        BankMsg::Send { to_address, amount } => serde_json::json!({"m": "bank_send", "from": sender.to_string(), "to": to_address,
+            "coins": amount.iter().map(|c| serde_json::json!({"d": c.denom, "a": c.amount.to_string()})).collect::<Vec<_>>()}),
+        BankMsg::Burn { amount } => serde_json::json!({"m": "bank_burn", "from": sender.to_string(), "to": "none",
+            "coins": amount.iter().map(|c| serde_json::json!({"d": c.denom, "a": c.amount.to_string()})).collect::<Vec<_>>()}),
+        _ => serde_json::json!({"m": "bank_other", "from": sender.to_string(), "to": "none", "coins": []}),
+    }
 }
 
 pub struct FaultyBank {
@@ -53,7 +62,7 @@ impl Module for FaultyBank {
         ExecC: CustomMsg + DeserializeOwned + 'static,
         QueryC: CustomQuery + DeserializeOwned + 'static,
     {
-        tick(&self.plan, format!("bank {sender} {msg:?}"))?;
+        tick(&self.plan, bank_json(&sender, &msg))?;
         self.inner.execute(api, storage, router, block, sender, msg)
     }
     fn query(
@@ -100,7 +109,7 @@ impl Stargate for FaultyStargate {
         ExecC: CustomMsg + DeserializeOwned + 'static,
         QueryC: CustomQuery + DeserializeOwned + 'static,
     {
-        tick(&self.plan, format!("tf {sender} {}", msg.type_url))?;
+        tick(&self.plan, serde_json::json!({"m": format!("tf:{}", msg.type_url.rsplit('.').next().unwrap_or("")), "from": sender.to_string(), "to": "none", "coins": []}))?;
         // the inner mock performs nested bank calls; do not count those
         let was = self.plan.borrow().armed;
         self.plan.borrow_mut().armed = false;
